@@ -193,6 +193,9 @@ def _pool_base(seed):
         "sample_weight_eval": np.ones(len(X_eval)),
         "utility_weight": np.ones(n),
         "utility_weight_cand": np.ones(len(cand_arr)),
+        # for SubSamplingWrapper with array candidates (sub-sample sizes 1, 4)
+        "utility_weight_sub1": np.ones(1),
+        "utility_weight_sub4": np.ones(4),
     }
     return rng, d
 
@@ -672,17 +675,30 @@ for _m in ("vote_entropy", "variation_ratios"):
 for _m in ("KL_divergence", "vote_entropy", "variation_ratios"):
     pool_case(P.QueryByCommittee, f"bagging-{_m}", {"method": _m},
               models=M(ensemble=sk_bagging_clf), lazy_none=_QBC_LAZY)
-pool_case(P.QueryByCommittee, "sample_proba",
+# 'seeded' / 'unseeded': whether the sampling call itself gets a random_state
+# (the strategies do not forward their own random_state to `sample_proba` /
+# `sample_y`, so the unseeded variants are not reproducible).
+_SP_SEEDED = fresh(lambda: {"n_samples": 4, "random_state": 0})
+_SP_UNSEEDED = fresh(lambda: {"n_samples": 4})
+pool_case(P.QueryByCommittee, "sample_proba-seeded",
           {"sample_predictions_method_name": "sample_proba",
-           "sample_predictions_dict": fresh(lambda: {"n_samples": 4})},
+           "sample_predictions_dict": _SP_SEEDED},
+          models=M(ensemble=pwc))
+pool_case(P.QueryByCommittee, "sample_proba-unseeded",
+          {"sample_predictions_method_name": "sample_proba",
+           "sample_predictions_dict": _SP_UNSEEDED},
           models=M(ensemble=pwc))
 pool_case(P.QueryByCommittee, "reg-list", models=M(ensemble=_reg_list),
           data=pool_reg_data, lazy_none=_QBC_LAZY)
 pool_case(P.QueryByCommittee, "reg-bagging", models=M(ensemble=sk_bagging_reg),
           data=pool_reg_data, lazy_none=_QBC_LAZY)
-pool_case(P.QueryByCommittee, "reg-sample_y",
+pool_case(P.QueryByCommittee, "reg-sample_y-seeded",
           {"sample_predictions_method_name": "sample_y",
-           "sample_predictions_dict": fresh(lambda: {"n_samples": 4})},
+           "sample_predictions_dict": _SP_SEEDED},
+          models=M(ensemble=nic), data=pool_reg_data)
+pool_case(P.QueryByCommittee, "reg-sample_y-unseeded",
+          {"sample_predictions_method_name": "sample_y",
+           "sample_predictions_dict": _SP_UNSEEDED},
           models=M(ensemble=nic), data=pool_reg_data)
 
 # BatchBALD / GreedyBALD -----------------------------------------------------
@@ -692,9 +708,13 @@ for _C in (P.BatchBALD, P.GreedyBALD):
     pool_case(_C, "bagging", models=M(ensemble=sk_bagging_clf), lazy_none=_lz)
     pool_case(_C, "n_MC_samples-3", {"n_MC_samples": 3},
               models=M(ensemble=_clf_list), lazy_none=_QBC_LAZY)
-    pool_case(_C, "sample_proba",
+    pool_case(_C, "sample_proba-seeded",
               {"sample_predictions_method_name": "sample_proba",
-               "sample_predictions_dict": fresh(lambda: {"n_samples": 4})},
+               "sample_predictions_dict": _SP_SEEDED},
+              models=M(ensemble=pwc), lazy_none=("n_MC_samples",))
+    pool_case(_C, "sample_proba-unseeded",
+              {"sample_predictions_method_name": "sample_proba",
+               "sample_predictions_dict": _SP_UNSEEDED},
               models=M(ensemble=pwc), lazy_none=("n_MC_samples",))
 
 # Quire ---------------------------------------------------------------------
@@ -915,8 +935,7 @@ def _sub_extra(max_cand, sw=True):
         if cand_mode != "arr":
             kw["utility_weight"] = data["utility_weight"]
         elif max_cand is not None:
-            k = min(max_cand, len(data["cand_arr"]))
-            kw["utility_weight"] = data["utility_weight_cand"][:k]
+            kw["utility_weight"] = data[f"utility_weight_sub{max_cand}"]
         return kw
 
     return extra
@@ -972,6 +991,11 @@ EXCLUDED.append((
     "ValueError: Found input variables with inconsistent numbers of samples: "
     "[7, 14] (AnnotatorLogisticRegression.fit drops fully unlabeled rows from "
     "X, y but not from sample_weight; a pool always has such rows)"))
+# Observed: IntervalEstimationThreshold.query is NOT reproducible even with
+# random_state=0 (all four configs): it builds its internal
+# IntervalEstimationAnnotModel without a random_state, so majority-vote ties
+# are broken by the global numpy RNG and the returned utilities differ from
+# call to call.
 _IET_NOTE = ("no sample_weight: AnnotatorLogisticRegression.fit crashes with "
              "sample_weight when rows are fully unlabeled (see EXCLUDED)")
 pool_case(PM.IntervalEstimationThreshold, "default", models=M(clf=annot_lr),
